@@ -45,7 +45,6 @@ thread_local! {
     static MAX_STACK: Cell<usize> = Cell::new(0);
     static SHADOW: Cell<bool> = Cell::new(false);
     static SHADOW_MSG: RefCell<Option<String>> = RefCell::new(None);
-    static COND_LEAK_REPAIR: Cell<bool> = Cell::new(false);
     static FLAG_SCOPE_REPAIR: Cell<bool> = Cell::new(false);
     static SCHED: RefCell<Option<Box<dyn FnMut(u32)>>> = RefCell::new(None);
     static SCHED_ON: Cell<bool> = Cell::new(false);
@@ -105,16 +104,6 @@ pub(crate) fn shadow_report(ok: bool, msg: impl FnOnce() -> String) {
             }
         });
     }
-}
-
-/// Attribution switch for the known finding "conditional leaves a stale entry on the auxiliary
-/// stack": when set, `compile_conditional` emits the `EndAtomic` the false branch lacks.
-pub fn set_cond_leak_repair(on: bool) {
-    COND_LEAK_REPAIR.with(|f| f.set(on));
-}
-
-pub(crate) fn cond_leak_repair() -> bool {
-    COND_LEAK_REPAIR.with(|f| f.get())
 }
 
 /// Attribution switch for the known finding "inline flags leak out of groups": when set, the
